@@ -219,9 +219,10 @@ theorem C11.applyAll_conj_perm (exposed : List String) (fs gs : List RawFilter) 
     List.filter_congr (fun r _ => hconj r)
   exact ⟨by rw [h1, heq], by rw [h1, h2, heq]⟩
 
-/-- outside the guard the order CAN matter (closed witness): a mixed column `[1, "a"]` in a PythonDict table with the
-filters `min 1` and `min "a"`: one order raises `TypeError` on the first row, in the other order … it also raises, but
-with `equal 5` first (which removes every row) nothing is compared any more and the result is the empty table -/
+/-- outside the guard the order CAN matter (closed witness): a PythonDict table with the mixed column `[1, "a"]` and the
+filters `equal 5` and `min "a"`. Iterated as [equal, min], `equal` removes every row and `min` has nothing left to
+compare: the result is the empty table. Iterated as [min, equal], `min` compares `"a" <= 1` on the first row and the
+call aborts with `TypeError`. (The iteration order of the filter set depends on string hashes.) -/
 theorem C11.applyAll_order_witness :
     applyAll PyDict.doFilter ["x"]
         (some [{ col := "x", ftype := "equal", value := .int 5 }, { col := "x", ftype := "min", value := .str "a" }])
@@ -590,3 +591,48 @@ example :
     Time.toUtcIso ⟨63871772400, 5, 3600⟩ = some "2025-01-06T14:00:00.000005+00:00" ∧
     Time.toUtcIso ⟨63871750800, 5, -18000⟩ = some "2025-01-06T14:00:00.000005+00:00" ∧
     Time.toUtcIso ⟨0, 0, 3600⟩ = none := by decide +kernel
+
+theorem C11.utc_iso_order_mono (a b : Time.Aware) (ha : a.micros < 1000000) (hb : b.micros < 1000000)
+    (sa sb : String) (hsa : Time.toUtcIso a = some sa) (hsb : Time.toUtcIso b = some sb)
+    (h : Time.instantLt a b) : sa < sb := by
+  have hra := (C11.utc_defined_iff a).mp (by rw [hsa]; rfl)
+  have hrb := (C11.utc_defined_iff b).mp (by rw [hsb]; rfl)
+  rw [Time.toUtcIso_of_range a hra] at hsa
+  rw [Time.toUtcIso_of_range b hrb] at hsb
+  cases hsa; cases hsb
+  show (String.ofList _).toList < (String.ofList _).toList
+  rw [String.toList_ofList, String.toList_ofList]
+  apply Time.isoOfInstant_lt (by omega) (by omega) ha hb
+  unfold Time.instantLt at h
+  omega
+
+/-- for all years 1..9999 the lexicographic (code point) order of the produced texts IS the order of the instants - the
+optional `.ffffff` part included (`'+' < '.'`): a string range filter on UTC ISO texts selects by time -/
+theorem C11.utc_iso_order (a b : Time.Aware) (ha : a.micros < 1000000) (hb : b.micros < 1000000)
+    (sa sb : String) (hsa : Time.toUtcIso a = some sa) (hsb : Time.toUtcIso b = some sb) :
+    sa < sb ↔ Time.instantLt a b := by
+  constructor
+  · intro hlt
+    by_cases h1 : Time.instantLt a b
+    · exact h1
+    · exfalso
+      by_cases h2 : Time.instantLt b a
+      · exact String.lt_asymm hlt (C11.utc_iso_order_mono b a hb ha sb sa hsb hsa h2)
+      · have heq : a.instant = b.instant := by
+          unfold Time.instantLt at h1 h2
+          unfold Time.Aware.instant
+          refine Prod.ext ?_ ?_
+          · show a.wall - a.offset = b.wall - b.offset; omega
+          · show a.micros = b.micros; omega
+        have := C11.utc_zone_independent a b heq
+        rw [hsa, hsb] at this
+        cases this
+        exact String.lt_irrefl _ hlt
+  · exact C11.utc_iso_order_mono a b ha hb sa sb hsa hsb
+
+/-- non-vacuity of the order statement: a text without fractional part sorts before the same second with microseconds -/
+example : ("2025-01-06T14:00:00+00:00" : String) < "2025-01-06T14:00:00.000005+00:00" ∧
+    Time.instantLt ⟨63871772400, 0, 3600⟩ ⟨63871772400, 5, 3600⟩ := by
+  constructor
+  · decide
+  · unfold Time.instantLt; decide
